@@ -39,6 +39,34 @@ theorem digitChar_ne_minus {d : Nat} (h : d < 10) : digitChar d ≠ '-' :=
 
 /-! ### identifiers -/
 
+/-- the identifier characters are ASCII: `_is_ident` is the exact ASCII predicate -/
+theorem identChar_ascii {c : Char} (h : isIdentChar c = true) : c.toNat < 128 := by
+  simp only [isIdentChar, isIdentStart, isDigit, Bool.or_eq_true, Bool.and_eq_true, decide_eq_true_eq,
+    beq_iff_eq] at h
+  have e : ∀ d : Char, c ≤ d → c.toNat ≤ d.toNat :=
+    fun d hd => UInt32.le_iff_toNat_le.mp (Char.le_def.mp hd)
+  rcases h with ((h | h) | h) | h
+  · have := e _ h.2
+    have e2 : ('z' : Char).toNat = 122 := by decide
+    omega
+  · have := e _ h.2
+    have e2 : ('Z' : Char).toNat = 90 := by decide
+    omega
+  · subst h; decide
+  · have := e _ h.2
+    have e2 : ('9' : Char).toNat = 57 := by decide
+    omega
+
+theorem isIdentL_ascii {s : List Char} (h : isIdentL s = true) : ∀ c ∈ s, isIdentChar c = true := by
+  cases s with
+  | nil => simp [isIdentL] at h
+  | cons c cs =>
+    simp only [isIdentL, Bool.and_eq_true, List.all_eq_true] at h
+    intro d hd
+    rcases List.mem_cons.mp hd with hd | hd
+    · subst hd; simp [isIdentChar, h.1]
+    · exact h.2 d hd
+
 theorem run_identChars (acc : LPath) (cur cs rest : List Char) (h : cs.all isIdentChar = true) :
     run (.ident acc cur) (cs ++ rest) = run (.ident acc (cur ++ cs)) rest := by
   induction cs generalizing cur with
